@@ -368,7 +368,8 @@ func c11Strict(src []byte) string {
 		case xml.EndTagToken:
 			have = append(have, "end:"+t.text)
 		case xml.TextToken:
-			text(&have, strings.ReplaceAll(strings.ReplaceAll(t.data, "\r\n", "\n"), "\r", "\n"))
+			// Text() is the content of the token (for character data: all of it)
+			text(&have, strings.ReplaceAll(strings.ReplaceAll(t.text, "\r\n", "\n"), "\r", "\n"))
 		case xml.CDATAToken:
 			text(&have, strings.ReplaceAll(strings.ReplaceAll(t.text, "\r\n", "\n"), "\r", "\n"))
 		case xml.CommentToken:
